@@ -458,6 +458,16 @@ def expand(prog: 'object') -> list[str]:
                 (r,) = rv
                 if r in assigned and r not in b:
                     alias[r] = target
+        # `t1, t2 = helper(...)` with tuple returns: a helper local returned at the same position by every return is that target
+        if target is not None and isinstance(target, ast.Tuple) and all(isinstance(t_, ast.Name) for t_ in target.elts):
+            rets = [n for st in body for n in ast.walk(st) if isinstance(n, ast.Return)]
+            if rets and all(isinstance(r_.value, ast.Tuple) and len(r_.value.elts) == len(target.elts) for r_ in rets):
+                for j_, t_ in enumerate(target.elts):
+                    nm = {r_.value.elts[j_].id if isinstance(r_.value.elts[j_], ast.Name) else None for r_ in rets}
+                    if len(nm) == 1 and None not in nm:
+                        (r,) = nm
+                        if r in assigned and r not in b and r not in alias and not any(isinstance(x, ast.Name) and x.id == r for k_, tt_ in enumerate(target.elts) if k_ != j_ for x in [tt_]):
+                            alias[r] = t_
         # names of the caller a helper local could interfere with; a name the caller only uses as the variable of a
         # comprehension (its own scope) cannot be captured
         comp_only: dict[str, int] = {}
@@ -516,7 +526,7 @@ def expand(prog: 'object') -> list[str]:
         new_body = [sub.visit(copy.deepcopy(st)) for st in body]
         for st in pre + new_body:
             ast.fix_missing_locations(st)
-        if alias:
+        if alias and target is not None and not isinstance(target, ast.Tuple):
             new_body = _drop_self_returns(new_body, target)
         return pre, new_body
 
